@@ -7,6 +7,7 @@ import AcraModel.Sql.ExprConverse
 import AcraModel.Sql.Forms
 import AcraModel.Sql.Grammar
 import AcraModel.Sql.ExprTokens
+import AcraModel.Sql.SelectRoundTrip
 /-!
 # C13 — re-serialised statements mean the same as the statements received
 
@@ -25,6 +26,8 @@ statements the positions whose value flows into `$$` are regenerated; every symb
 (`grammar_uses_every_operand`), hence no derivation loses a lexeme it reads (`derivation_keeps_lexemes`); the generated
 parser `sql.go` is in step with `sql.y` (`fact_generated_parser_matches_grammar`). For the expression fragment the
 token conservation is proved on the parser itself (`parse_keeps_lexemes`).
+Part 5: the SELECT core (`Sql/Select.lean`) – select list with aliases and `*`, FROM with join chains, WHERE, GROUP BY,
+HAVING, ORDER BY, LIMIT around the expression fragment: `select_roundtrip`.
 -/
 namespace AcraModel.Props.C13
 open AcraModel AcraModel.Sql.Literal Generated.SqlLiterals
@@ -517,5 +520,65 @@ theorem seeded_grammar_counterexample :
       [("SINGLE_QUOTE_STRING", [97]), ("SINGLE_QUOTE_STRING", [120])] := by decide +kernel
 
 end Grammar
+
+/-! ## Part 5: the SELECT core -/
+section SelectCore
+open AcraModel.Sql.Expr AcraModel.Sql.Select
+
+/-- **Well-formed SELECT statements round-trip.** For every statement of the modelled core –
+`SELECT [DISTINCT] items FROM table references [WHERE] [GROUP BY] [HAVING] [ORDER BY] [LIMIT]`, items `*` or an expression
+with an optional alias, table references with chains of inner / straight / left / right / natural joins with their ON
+conditions, the three LIMIT spellings – whose expressions are producible (`Sel.Ok`: in the image of the parser), the
+token sequence of the printed statement (`Select.Format` and the `Format` methods of its clause nodes) is read back as
+exactly that statement: no clause, list element, alias, join, condition, direction or literal is lost, added, moved to
+another clause or altered. (The join chain is kept as the flat list `JoinTableExpr.Format` prints; ORDER BY NULL /
+rand(), which Acra prints without a direction, USING, sub-queries, hints, locks and comments are outside the core.) -/
+theorem select_roundtrip (s : Sel) (h : s.Ok) : parseSel (stoks s) = some s := parseSel_stoks s h
+
+/-- … in the executable form the harness uses (`C13.sel.ok` / `C13.sel.roundtrip`) -/
+theorem select_roundtrip_checked (s : Sel) (h : s.okB = true) : parseSel (stoks s) = some s :=
+  parseSel_stoks s (Sel.ok_of_okB h)
+
+/-- **Different well-formed statements never print alike**: the printer is injective on the core. -/
+theorem select_format_injective (s₁ s₂ : Sel) (h₁ : s₁.Ok) (h₂ : s₂.Ok) (h : stoks s₁ = stoks s₂) : s₁ = s₂ := by
+  have a := select_roundtrip s₁ h₁
+  rw [h, select_roundtrip s₂ h₂] at a
+  injection a with a
+  exact a.symm
+
+private def exSel : Sel :=
+  { distinct := true
+    items := [.expr (.col [97]) (some [120]), .star, .expr (.func [102] [.col [98], .val tyInt [49]]) none]
+    from_ := [⟨⟨[116], none⟩, [⟨.left, ⟨[117], some [118]⟩, some (.cmp .eq (.col [97]) (.col [98]))⟩, ⟨.natural, ⟨[119], none⟩, none⟩]⟩,
+      ⟨⟨[122], some [121]⟩, []⟩]
+    where_ := some (.and (.cmp .eq (.col [97]) (.val tyInt [49])) (.paren (.or (.col [98]) (.is .isNull (.col [99])))))
+    groupBy := [.col [97], .bin .plus (.col [98]) (.val tyInt [49])]
+    having := some (.cmp .gt (.func [99] [.col [97]]) (.val tyInt [50]))
+    orderBy := [⟨.col [97], true⟩, ⟨.col [98], false⟩]
+    limit := .countOffset (.val tyInt [53]) (.val tyInt [50]) }
+
+/-- non-vacuity: `select distinct a as x, *, f(b, 1) from t left join u as v on a = b natural join w, z as y where a = 1
+and (b or c is null) group by a, b + 1 having c(a) > 2 order by a desc, b asc limit 5 offset 2` is well-formed and
+round-trips -/
+example : exSel.okB = true ∧ parseSel (stoks exSel) = some exSel :=
+  have h : exSel.okB = true := by decide +kernel
+  ⟨h, select_roundtrip_checked exSel h⟩
+
+private def badSel : Sel :=
+  { distinct := false
+    items := [.star]
+    from_ := [⟨⟨[116], none⟩, [⟨.natural, ⟨[117], none⟩, some (.cmp .eq (.col [97]) (.col [98]))⟩]⟩]
+    where_ := none
+    groupBy := []
+    having := none
+    orderBy := []
+    limit := .none }
+
+/-- **A statement outside the image of the parser does not round-trip**: a NATURAL JOIN carrying an ON condition (a tree a
+rewrite could build, the grammar never does) is printed `select * from t natural join u on a = b`, which the parser
+rejects. -/
+theorem select_not_ok_counterexample : badSel.okB = false ∧ parseSel (stoks badSel) = none := by decide +kernel
+
+end SelectCore
 
 end AcraModel.Props.C13
